@@ -289,7 +289,9 @@ def run(ctx):
               "state_table cells are written only by transition_inner (MISSING -> state) and construction",
               "state_table cells are written by %s" % sorted(elem_writers - exp))
     ti = ctx.body(RV + "::transition")
-    ne = L.guard_edges(ti, lambda e: e[0] == "call" and e[1].endswith("::ne") or (e[0] == "bin" and e[1] == "Ne"), False)
+    ne = L.guard_edges_multi(ti, [
+        (lambda e: (e[0] == "call" and e[1].endswith("::ne")) or (e[0] == "bin" and e[1] == "Ne"), False),
+        (lambda e: (e[0] == "call" and e[1].endswith("::eq")) or (e[0] == "bin" and e[1] == "Eq"), True)])   # `== MISSING` spelling
     inner = ti.call_blocks(RV + "::transition_inner")
     still = L.dominated_by_cut(ti, inner, ne) if ne else inner
     ctx.check(bool(inner) and bool(ne) and not still, "C14-R3", "transition:compute-only-if-missing",
